@@ -1,7 +1,7 @@
 (** C09 - Environment and working directory are layered with a fixed precedence. *)
 From Coq Require Import List Arith Bool.
 Import ListNotations.
-From TaskctlV Require Import Model.Stage Model.Env Proofs.EnvSpec.
+From TaskctlV Require Import Model.Stage Model.Env Proofs.EnvSpec Model.SetFlag Model.EnvFile Proofs.EnvFileSpec.
 
 (* for all eight layers with arbitrary names and VALUES: the highest level that defines the name wins *)
 Theorem C09_precedence : forall L name,
@@ -30,6 +30,32 @@ Print Assumptions C09_task_name.
 Theorem C09_dir : forall D, job_dir D = first_nonzero [d_stage D; d_task D; d_ctx D; d_start D].
 Proof. exact dir_precedence. Qed.
 Print Assumptions C09_dir.
+
+(* the env_file level, from the file's text: a file of NAME=value lines (names without '=', no line feed inside, values not
+   ending in CR) defines exactly what is written, values verbatim (further '=' included), the later line winning for a
+   name defined twice; lines without '=' define nothing; CRLF line ends read like LF; a last line without LF counts *)
+Theorem C09_env_file_verbatim : forall kvs, Forall wf_kv kvs -> read_env_text (render kvs) = rev kvs.
+Proof. exact env_text_verbatim. Qed.
+Print Assumptions C09_env_file_verbatim.
+Theorem C09_env_file_last_line_wins : forall kvs k v, Forall wf_kv kvs -> wf_kv (k, v) ->
+  vlookup k (read_env_text (render (kvs ++ [(k, v)]))) = Some v.
+Proof. exact env_text_last_wins. Qed.
+Print Assumptions C09_env_file_last_line_wins.
+Theorem C09_env_file_other_lines_define_nothing : forall m l rest, ~ In lf l -> ~ In eqc l ->
+  read_from m (l ++ lf :: rest) = read_from m rest.
+Proof. exact line_without_equals_defines_nothing. Qed.
+Print Assumptions C09_env_file_other_lines_define_nothing.
+Theorem C09_env_file_crlf : forall m k v rest, ~ In eqc k -> ~ In lf k -> ~ In lf v ->
+  read_from m ((k ++ eqc :: v ++ [cr]) ++ lf :: rest) = read_from ((k, v) :: m) rest.
+Proof. exact crlf_line_defines. Qed.
+Print Assumptions C09_env_file_crlf.
+Theorem C09_env_file_unterminated_last_line : forall k v, ~ In eqc k -> ~ In lf k -> ~ In lf v -> ends_cr v = false ->
+  read_env_text (k ++ eqc :: v) = [(k, v)].
+Proof. exact unterminated_last_line. Qed.
+Print Assumptions C09_env_file_unterminated_last_line.
+Example C09_env_file_example :
+  read_env_text [65; 61; 49; 61; 50; 10; 10; 35; 120; 10; 66; 61; 13; 10; 65; 61; 51] = [([65], [51]); ([66], []); ([65], [49; 61; 50])].
+Proof. reflexivity. Qed.
 
 (* non-vacuity and the pinned defect: parent X=9 (sorts above), task env X=1: the task's value must win *)
 Definition Lx := mkEnvL [(7, 9)] [] [] (0, 100) [] [(7, 1)] [] [].
